@@ -96,10 +96,31 @@ def parse(line):
     return {'task': task.split(), 'comp': cs, 'done': fin.strip().startswith('done')}
 
 
+MODEL_OK = True      # set to False by a check when the model does not compile (e.g. a Gen table could not be regenerated):
+                     # the implementation is then judged against the Spec predicates alone
+
+
 def run_both(ctx, cases, shards=8, per_shard=150):
     impl = ctx.harness('client', [to_line(c) for c in cases], shards=shards)
+    if not MODEL_OK:
+        return [canon(i) for i in impl], [canon(i) for i in impl]
     model = ctx.coq_eval(REQUIRES, 'eval_case', [to_coq(c) for c in cases], case_type='case', per_shard=per_shard)
     return [canon(i) for i in impl], [canon(m) for m in model]
+
+
+def prepare(ctx, extra_models=()):
+    """translate, build models, prove, build harness; returns False when nothing can be run"""
+    global MODEL_OK
+    ctx.translate(['SessionErrors.v'])
+    MODEL_OK = ctx.build_models(REQUIRES + list(extra_models))
+    ctx.prove()
+    if ctx.tier == 'thorough':
+        ctx.coqchk()
+    if not ctx.build_harness():
+        return False
+    if not MODEL_OK:
+        ctx.log('model unavailable: judging the implementation against the Spec predicates only')
+    return True
 
 
 # ------------------------------------------------------------------------------- Spec predicates on a log
@@ -212,35 +233,65 @@ def spec_failures(case, line):
                 bad.append('C12.timeout-not-at-the-deadline')
         if cl == 'NoConnection' and i in wire_of:
             bad.append('C13.no-connection-for-a-transmitted-request')
-    # C12: consecutive-timeout limit, per session
+    # C12: consecutive-timeout limit, per connection
+    for outs, end in session_outcomes(case, line):
+        run = 0
+        hit = False
+        for k, o in enumerate(outs):
+            if o is None:
+                break
+            run = run + 1 if o == 't' else 0
+            if cfg['mt'] and run >= cfg['mt']:
+                hit = True
+                if k != len(outs) - 1 or end != 'MaxTimeouts':
+                    bad.append('C12.connection-not-dropped-after-N-timeouts')
+                break
+        if end == 'MaxTimeouts' and not hit:
+            bad.append('C12.connection-dropped-without-N-consecutive-timeouts')
+    return sorted(set(bad))
+
+
+def session_outcomes(case, line):
+    """per connection of one log: ([outcome letters in the order the requests were taken], end reason or None);
+    t timeout, s success, e exception, b bad reply, o a request rejected locally (cannot be formatted), None = not finished"""
+    cfg, script = case
+    p = parse(line)
+    if p is None:
+        return []
+    comp = {c[0]: c[1] for c in p['comp']}
+    letter = {'Timeout': 't', 'Ok': 's', 'Exception': 'e', 'BadResponse': 'b'}
     sessions = []
     cur = None
-    comp_by_id = {c[0]: c for c in p['comp']}
+    sess_of = {}
     for t in p['task']:
         if t == 'lN':
             cur = {'ids': [], 'end': None}
             sessions.append(cur)
-        elif t[0] in 'wx' and cur is not None:
-            cur['ids'].append(int(t[t.index(':') + 1:].split('@')[0]))
+        elif t[0] == 'w' and cur is not None:
+            i = int(t[t.index(':') + 1:].split('@')[0])
+            cur['ids'].append(i)
+            sess_of[i] = len(sessions) - 1
         elif t[0] == 'e' and cur is not None:
             cur['end'] = t[1:]
             cur = None
+    submitted = [s[1] for s in script if s[0] == 'S']
+    fmt_failed = {i for i, c in comp.items() if c in ('BadRequest', 'Internal')}
+    taken = [i for i in submitted if i in sess_of or i in fmt_failed]
+    after = {}            # wire id -> number of locally rejected requests taken right after it on the same connection
+    for k, i in enumerate(taken):
+        if i in fmt_failed and i not in sess_of:
+            prev = next((x for x in reversed(taken[:k]) if x in sess_of), None)
+            nxt = next((x for x in taken[k + 1:] if x in sess_of), None)
+            if prev is not None and nxt is not None and sess_of[prev] == sess_of[nxt]:
+                after[prev] = after.get(prev, 0) + 1
+    res = []
     for s in sessions:
-        run = 0
-        hit = False
-        for k, i in enumerate(s['ids']):
-            c = comp_by_id.get(i)
-            if c is None:
-                break
-            run = run + 1 if c[1] == 'Timeout' else 0
-            if cfg['mt'] and run >= cfg['mt']:
-                hit = True
-                if k != len(s['ids']) - 1 or s['end'] != 'MaxTimeouts':
-                    bad.append('C12.connection-not-dropped-after-N-timeouts')
-                break
-        if s['end'] == 'MaxTimeouts' and not hit:
-            bad.append('C12.connection-dropped-without-N-consecutive-timeouts')
-    return sorted(set(bad))
+        outs = []
+        for i in s['ids']:
+            outs.append(letter.get(comp.get(i)))
+            outs += ['o'] * after.get(i, 0)
+        res.append((outs, s['end']))
+    return res
 
 
 # ------------------------------------------------------------------------------- generation guide
